@@ -101,6 +101,22 @@ func generate(g *Gen, prop string, n int) {
 		for i := 0; i < n; i++ {
 			g.genSketchHistory(p)
 		}
+	case "C06":
+		for i := 0; i < n; i++ {
+			g.genRoundTripHistory()
+		}
+	case "C07":
+		for i := 0; i < n; i++ {
+			if i%3 == 0 {
+				g.genRoundTripHistory() // (i) bytes produced by the implementation -> documentation decoder
+			} else {
+				g.genGrammarHistory() // (ii) streams from the documented grammar -> implementation
+			}
+		}
+	case "C08":
+		for i := 0; i < n; i++ {
+			g.genTruncationHistory()
+		}
 	case "C18":
 		g.genCodec(n)
 	default:
